@@ -124,7 +124,8 @@ namespace Givaro
     inline typename Montgomery<RecInt::ruint<K>>::Element& Montgomery<RecInt::ruint<K>>::div
     (Element& r, const Element& a, const Element& b) const
     {
-        return mulin(inv(r, b), a);
+        Element ib;
+        return mul(r, a, inv(ib, b));
     }
 
     template<size_t K>
